@@ -314,6 +314,9 @@ func c15RunRandom(t *testing.T, m *vk.M, salt string, n int, trigger, rekey bool
 		if w.incon {
 			return
 		}
+		if idx%4 == 1 && !rekey {
+			w.permuteEndpoints()
+		}
 		if rekey {
 			// a deleted key may be registered again with another value (a publisher with a
 			// fixed id that comes back on another address); every check of the family
